@@ -204,6 +204,7 @@ func (r *Report) Finish() int {
 		"solver_sat":                    atomic.LoadInt64(&smt.Global.Sat),
 		"solver_unsat":                  atomic.LoadInt64(&smt.Global.Unsat),
 		"solver_unknown":                atomic.LoadInt64(&smt.Global.Unknown),
+		"solver_hard_timeouts":          atomic.LoadInt64(&smt.Global.HardTimeouts),
 		"solver_time_s":                 float64(atomic.LoadInt64(&smt.Global.NanosSum)) / 1e9,
 		"solver_diffed":                 atomic.LoadInt64(&smt.Global.Diffed),
 		"solver_disagreements":          atomic.LoadInt64(&smt.Global.DiffBad),
